@@ -29,6 +29,7 @@ def dispatch (line : String) : String :=
     | "lnice" :: rest => lniceCmd rest
     | "lhist" :: rest => lhistCmd rest
     | "qp" :: rest => qpCmd rest
+    | "vpsc" :: rest => vpscCmd rest
     | "geom" :: rest => geomCmd rest
     | "pic" :: rest => picCmd rest
     | "tfmt" :: rest => tfmtCmd rest
